@@ -125,7 +125,7 @@ func (c *checker) check(site *Site, s string) CaseResult {
 		if b := c.baseline(site, defaultBaselineVariant(site)); !b.loaded || (dirty(b.x) == nil && dirty(b.y) == nil) {
 			res.Outcome = "violation"
 			res.Class = site.Group + ":" + f.Reason
-			res.What = fmt.Sprintf("site=%s text=%q: %s", site.ID, q.Text, f.Detail)
+			res.What = fmt.Sprintf("site=%s text=%+q: %s", site.ID, q.Text, f.Detail)
 			return res
 		}
 	}
@@ -183,7 +183,7 @@ func (c *checker) check(site *Site, s string) CaseResult {
 		cls = best.Reason
 	}
 	res.Class = site.Group + ":" + cls
-	res.What = fmt.Sprintf("site=%s value=%q variant=%s: %s", site.ID, q.Value, best.Variant, best.Detail)
+	res.What = fmt.Sprintf("site=%s value=%+q variant=%s: %s", site.ID, q.Value, best.Variant, best.Detail)
 	return res
 }
 
